@@ -216,6 +216,15 @@ def families(tier):
     fam.append(([[StartsWith["a"]], [EndsWith["z"]]], [(str,)], "method"))
     fam.append(([[L(1)], [L(2)], [L(3)], [L(4)]], [(int,)], "method"))
     fam.append(([[Dependent[int, positive], KW("k", object)], [int, KW("k", object)]], [(int, KW("k", str))], "method"))
+    # three Literal methods whose value sets overlap PAIRWISE but have no value common to all three, next to a second conditioned
+    # position (so that no lookup table applies): whenever two conditions hold the ambiguity error is raised
+    fam.append(([[L(0, 1), L(7)], [L(1, 2), L(7)], [L(3), L(7)]], [(int, int)]))
+    fam.append(([[L(0, 1), L(7)], [L(1, 2), L(7)], [L(2, 0), L(7)]], [(int, int)]))
+    # string values that need care when they are spliced into generated source text (braces, quotes, backslashes)
+    fam.append(([[L("{{")], [L("}}")]], [(str,)]))
+    fam.append(([[L("{arg}")], [L("ARG0")]], [(str,)]))
+    fam.append(([[L("it's")], [L('say "hi"')], [L("back\\slash")]], [(str,)]))
+    fam.append(([[L("{0}"), L(5)], [L("%s"), int]], [(str, int)]))
     # systematic part: every set of up to four (thorough: five) methods whose single dispatched position carries one of seven
     # conditions bounded by int - single and multi-valued disjoint Literals, two user predicates - so that every strategy of
     # the generator (single method, exclusive if-chain, lookup table, counted matches) is reached with every mixture
